@@ -66,10 +66,20 @@ namespace rkcommon {
                     " INDEX_T to be unsigned char, short, int, uint, long,"
                     " or size_t.");
 
-      INDEX_T numBlocks = (nTasks + BLOCK_SIZE - 1) / BLOCK_SIZE;
+      static_assert(BLOCK_SIZE > 0,
+                    "rkcommon::tasking::parallel_in_blocks_of() requires a"
+                    " positive BLOCK_SIZE.");
+
+      // NOTE - no intermediate value exceeds nTasks, so nothing can overflow
+      //        (or wrap) for any index type and any nTasks
+      const INDEX_T numBlocks = nTasks > 0
+          ? INDEX_T(nTasks / BLOCK_SIZE + (nTasks % BLOCK_SIZE != 0 ? 1 : 0))
+          : INDEX_T(0);
       parallel_for(numBlocks, [&](INDEX_T blockID) {
-        INDEX_T begin = blockID * (INDEX_T)BLOCK_SIZE;
-        INDEX_T end   = std::min(begin + (INDEX_T)BLOCK_SIZE, nTasks);
+        const INDEX_T begin = INDEX_T(blockID * BLOCK_SIZE);
+        const INDEX_T end   = (nTasks - begin > BLOCK_SIZE)
+            ? INDEX_T(begin + BLOCK_SIZE)
+            : nTasks;
         fcn(begin, end);
       });
     }
